@@ -40,6 +40,14 @@ def check(repo: Repo) -> Result:
     exceptions(repo, res)
     printer_parser(repo, res)
     persistence(repo, res)
+    from rules import c13, memo_rules
+
+    r5 = res.rule("C20-R5", "a text denotes one unit per registry: the unit-string cache is filled only with units looked up in the registry's own table (never from text plus explicit values), and the table travelling with a pickle is complete", floor=5)
+    for key, ok, where, msg, exp, found in memo_rules.explicit_values(repo):
+        res.check(ok, key, where, msg + " - equivalent spellings of that text ('(Msun)', '1*Msun') then denote another unit than the text itself", exp, found, rid=r5)
+    from rules.common import share
+
+    share(res, r5, "C13", lambda t: c13.ownership(repo, t), ["C13-R1"], want=lambda k: k == "pickle:complete-table")
     return res
 
 
@@ -409,6 +417,15 @@ def persistence(repo, res):
         # a computed separator: fine only if the reader cuts the unit line with the very same expression
         ok = any(c.args and norm(c.args[0]) == norm(sep) and "words" not in norm(c) for c in splits) and False
         found = norm(sep)
+    # np.savetxt writes every header line as <comments><line>; loadtxt recognises the marker line by
+    # `words == [<comments>, "Units"]` and takes words[1:] of the next line: both lines must therefore start with
+    # white space of their own, otherwise a marker without a trailing blank ("#", "%") glues to the first word
+    lits = [c for c in ast.walk(sv.node) if isinstance(c, ast.Constant) and isinstance(c.value, str) and "Units" in c.value and c is not getattr(ast.get_docstring, "x", None)]
+    doc = ast.get_docstring(sv.node, clean=False)
+    lits = [c for c in lits if c.value != doc]
+    import re as _re
+
+    res.check(len(lits) == 1 and _re.fullmatch(r"\s+Units\n\s+", lits[0].value) is not None, "savetxt:header-blanks", sv.where(lits[0]) if lits else sv.where(), "the marker line and the unit line of the header must each begin with white space: loadtxt splits `<comments> Units` into two words, and with a comment marker that has no trailing blank (comments='#', '%') the marker line is not recognised and every column comes back dimensionless", "' Units\\n ' (blank before Units, blank at the start of the unit line)", [c.value for c in lits], rid=r4)
     res.check(ok, "savetxt:unit-line-separator", sv.where(unit_joins[0]), "the unit texts of the header are joined with something loadtxt does not split at (it cuts the unit line at white space): with that separator the units of all columns are lost on reading", "a white-space literal", found, rid=r4)
     # no process-global memo between the stored text and the unit rebuilt from it
     from rules import memo_rules
@@ -441,4 +458,6 @@ MUTANTS = [
     Mutant("walk-double-cast", UO, "_get_unit_data_from_expr", "conv = float(unit_data[0] ** power)", "conv = float(float(unit_data[0]) ** power)", (), benign=True),
     Mutant("header-joined-by-delimiter", ARR, "savetxt", '"\\t".join(units)', "delimiter.join(units)", ("C20-R4",)),
     Mutant("header-joined-by-space", ARR, "savetxt", '"\\t".join(units)', '" ".join(units)', (), benign=True),
+    Mutant("header-without-blanks", ARR, "savetxt", 'header += " Units\\n " + ', 'header += "Units\\n" + ', ("C20-R4",)),
+    Mutant("bypass-branch-text-with-values", ARR, "unyt_array.__new__", "                    input_units.expr,\n", "                    str(input_units),\n", ("C20-R5",)),
 ]
